@@ -28,6 +28,31 @@ NSHARDS = int(os.environ.get("VERIF_SHARDS", "16"))
 MAX_KEEP_PER_SIG = 3
 
 
+class CaseTimeout(Exception):
+    pass
+
+
+class time_limit:
+    """Watchdog for in-process cases: a reader that lost byte alignment may loop over a garbage length."""
+
+    def __init__(self, seconds):
+        self.seconds = seconds
+
+    def _raise(self, signum, frame):
+        raise CaseTimeout("case exceeded %d s" % self.seconds)
+
+    def __enter__(self):
+        import signal
+        self.old = signal.signal(signal.SIGALRM, self._raise)
+        signal.alarm(self.seconds)
+
+    def __exit__(self, *a):
+        import signal
+        signal.alarm(0)
+        signal.signal(signal.SIGALRM, self.old)
+        return False
+
+
 def derive_seed(seed, *parts):
     h = hashlib.sha256(("%d|" % seed + "|".join(str(p) for p in parts)).encode()).hexdigest()
     return int(h[:12], 16)
@@ -39,7 +64,7 @@ def case_hash(obj):
 
 class Stage:
     def __init__(self, name, kind, evaluate, n=0, strategy=None, enumerate=None, cases=None, exhaustive=False,
-                 shards=None, vary_hashseed=False):
+                 shards=None, vary_hashseed=False, run=None):
         self.name = name
         self.kind = kind
         self.evaluate = evaluate
@@ -49,6 +74,7 @@ class Stage:
         self.cases = cases
         self.exhaustive = exhaustive
         self.shards = shards
+        self.run = run      # kind 'func': run(shard, nshards, seed, n, ctx) drives its own search (e.g. a state machine)
         # when set, every shard worker (and the IsoQuant children it forks) runs under its own PYTHONHASHSEED
         self.vary_hashseed = vary_hashseed
 
@@ -144,6 +170,10 @@ def _run_stage_in_worker(mod, stage, shard, nshards, seed, ctx):
             if i % nshards == shard:
                 ctx.evaluations += 1
                 stage.evaluate(case, ctx)
+    elif stage.kind == "func":
+        n = stage.n // nshards + (1 if shard < stage.n % nshards else 0)
+        if n > 0:
+            stage.run(shard, nshards, derive_seed(seed, mod.ID, stage.name, shard), n, ctx)
     else:
         raise ValueError(stage.kind)
 
@@ -239,7 +269,7 @@ def worker_main(argv):
 
 def run_stage_sharded(pid, stage, seed, tier, nshards=None):
     nshards = stage.shards or nshards or NSHARDS
-    if stage.kind in ("hyp",):
+    if stage.kind in ("hyp", "func"):
         nshards = max(1, min(nshards, stage.n))
     tmp = tempfile.mkdtemp(prefix="iqverif-par-")
     procs = []
